@@ -74,7 +74,7 @@ func chainNonTrivial(chain []*MW) bool {
 }
 
 func runC04(e *Env) {
-	e.Rule = "registration programs (AST): Use / Group (nested to depth 4, via Group or Controller) / routes with variadic middleware and later Route.Use calls (immediately or at program end) / top-level Use before, between and after routes / NotFound / NotAllowed, HandleMethodNotAllowed on/off, cache off/on; every handler is a fresh closure calling Next 0, 1 or 2 times (main handlers too). One request per route + a not-found + a wrong-method request + an overlapping pair (a second request served by the same router while the first is parked inside one of its handlers); the recorded enter/leave trace must equal the onion interpreter's trace of the chain predicted by the reference scope model. Non-trivial: depth >= 2, Use after a route, sibling groups, or a 0/2-Next handler in the chain; distinct by (program, request). A third of the routers have served a request whose handler panicked (no hook, recovered by the caller) before. Every middleware closure comes from one function literal. Part long-chains: chains of 40..327 entries (global middleware on top of a full route chain), compared with the onion interpreter. A group may contain one route whose own path is just a variable (GET(\"/{id:[0-9]{3}}\") inside Group(\"/g1\")): its literal head is the group prefix, which is also the beginning of the heads of everything nested below."
+	e.Rule = "registration programs (AST): Use / Group (nested to depth 4, via Group or Controller) / routes with variadic middleware and later Route.Use calls (immediately or at program end) / top-level Use before, between and after routes / NotFound / NotAllowed, HandleMethodNotAllowed on/off, cache off/on; every handler is a fresh closure calling Next 0, 1 or 2 times (main handlers too). One request per route + a not-found + a wrong-method request + an overlapping pair (a second request served by the same router while the first is parked inside one of its handlers); the recorded enter/leave trace must equal the onion interpreter's trace of the chain predicted by the reference scope model. Non-trivial: depth >= 2, Use after a route, sibling groups, or a 0/2-Next handler in the chain; distinct by (program, request). A third of the routers have served a request whose handler panicked (no hook, recovered by the caller) before. Every middleware closure comes from one function literal. Part long-chains: chains of 40..327 entries (global middleware on top of a full route chain), compared with the onion interpreter. A group may contain one route whose own path is just a variable (GET(\"/{id:[0-9]{3}}\") inside Group(\"/g1\")): its literal head is the group prefix, which is also the beginning of the heads of everything nested below. A third of the middleware that never call Next() answer the request themselves (Redirect, Back, Text) before they return."
 	e.Assumptions = []string{
 		"the 40-line scope model + 15-line onion interpreter in harness/mon/prog.go are the trusted statement of the documented order",
 		"the generated programs keep chains short; the part long-chains drives chains of 40..327 entries (global + group + route middleware + main handler; a route's own chain stays within the registration limit of 63, the global middleware is not counted by it) in which nobody aborts",
@@ -99,6 +99,42 @@ func c04Case(t *T) {
 	g := &progGen{maxDepth: 4, dynamic: true, ctrl: true, styles: true, bare: true}
 	p := GenProgram(r, g)
 	armPanics(p) // enables the X-Nest header: a second request served while the first is inside a handler
+	// a third of the middleware that never call Next() answer the request themselves (a redirect, a text) and
+	// return - "a handler that returns without Next() is followed by the rest of the chain", whatever it sent
+	seenMW, answering := map[*MW]bool{}, map[*MW]bool{}
+	answer := func(m *MW) {
+		if m == nil || seenMW[m] || m.Main || m.Nexts != 0 {
+			return
+		}
+		seenMW[m] = true
+		if !chance(r, 1, 3) {
+			return
+		}
+		answering[m] = true
+		old, kind := m.Pre, r.IntN(3)
+		m.Pre = func(c *rux.Context, rec *Rec) {
+			if old != nil {
+				old(c, rec)
+			}
+			switch kind {
+			case 0:
+				c.Redirect("/elsewhere")
+			case 1:
+				c.Back()
+			default:
+				c.Text(200, "answered by "+m.ID)
+			}
+		}
+		t.Count("programs.middleware_answers_and_returns_without_next", 1)
+	}
+	for _, m := range p.Globals {
+		answer(m)
+	}
+	for _, rs := range p.Routes {
+		for _, m := range rs.Chain {
+			answer(m)
+		}
+	}
 	var failing []string
 	t.Describe(func() any {
 		d := p.Describe().(map[string]any)
@@ -153,7 +189,13 @@ func c04Case(t *T) {
 			t.Fail(kind+"-"+classifyTrace(want, rec.Events), "%s request %s %q: expected chain %s\n expected trace: %s\n observed trace: %s", kind, method, path, mwList(chain), strings.Join(want, " "), strings.Join(rec.Events, " "))
 			return
 		}
-		if wantStatus != 0 && rec.Status() != wantStatus {
+		answered := false // (a middleware of the chain sent its own answer: the status is that answer's, not part of this property)
+		for _, m := range chain {
+			if answering[m] {
+				answered = true
+			}
+		}
+		if wantStatus != 0 && !answered && rec.Status() != wantStatus {
 			failing = append(failing, method+" "+path)
 			t.Fail(kind+"-status", "%s request %s %q: expected status %d, observed %d", kind, method, path, wantStatus, rec.Status())
 		}
